@@ -196,6 +196,13 @@ pub fn check(prop: P, case: &Case, cfg: &RunCfg, order: (usize, u64, u32), acc: 
             }
             if prop == P::C14 {
                 check_c14(case, &cfg, &sem, &res, order, acc);
+                // the clause database must stay truthful with soft-named solvables too (at-most-one
+                // encodings include solvables that no requirement revealed)
+                if let Some(d) = &res.dump {
+                    if let Err((sig, what)) = check_clauses(&sem, d, acc) {
+                        acc.violation(v(format!("clauses:{sig}"), what, res.outcome.short()));
+                    }
+                }
             }
         }
         P::C02 => {
